@@ -11,9 +11,9 @@ Ltac bits := autorewrite with bits.
 
 Definition nal_type (n : list Z) : Z := match n with b0 :: _ => Z.land b0 31 | [] => 0 end.
 
-(* a NAL unit as the property quantifies over them: at least two bytes, type 1-23, F bit 0 *)
+(* a NAL unit as the property quantifies over them: at least two bytes, type 1-23 (the F bit is part of the unit) *)
 Definition valid_nal (n : list Z) : Prop :=
-  2 <= zlen n /\ match n with b0 :: _ => 0 <= b0 < 128 /\ 1 <= Z.land b0 31 <= 23 | [] => False end.
+  2 <= zlen n /\ match n with b0 :: _ => 0 <= b0 < 256 /\ 1 <= Z.land b0 31 <= 23 | [] => False end.
 
 (* run a list of payloads through one depacketizer, concatenating what it returns *)
 Fixpoint depack (st : h264pkt) (ps : list (list Z)) : res (h264pkt * list Z) :=
@@ -121,15 +121,17 @@ Proof.
   intros H. rewrite lor_128_add, lor_64_add by lia. bits. repeat split; lia.
 Qed.
 
-Lemma fu_indicator_bits nri : nri = 0 \/ nri = 32 \/ nri = 64 \/ nri = 96 ->
-  Z.land (Z.lor 28 nri) 31 = 28 /\ Z.land (Z.lor 28 nri) 96 = nri.
+Definition fnri_ok (nri : Z) : Prop := nri = 0 \/ nri = 32 \/ nri = 64 \/ nri = 96 \/ nri = 128 \/ nri = 160 \/ nri = 192 \/ nri = 224.
+
+Lemma fu_indicator_bits nri : fnri_ok nri ->
+  Z.land (Z.lor 28 nri) 31 = 28 /\ Z.land (Z.lor 28 nri) 224 = nri.
 Proof.
-  intros [ -> | [ -> | [ -> | -> ] ] ]; split; reflexivity.
+  intros [ -> | [ -> | [ -> | [ -> | [ -> | [ -> | [ -> | -> ] ] ] ] ] ] ]; split; reflexivity.
 Qed.
 
 (* feeding the fragments of one unit: whatever the buffer held before a start fragment, the
    unit comes out when the end fragment arrives *)
-Lemma depack_fua_tail avc nri ty : nri = 0 \/ nri = 32 \/ nri = 64 \/ nri = 96 -> 1 <= ty <= 23 ->
+Lemma depack_fua_tail avc nri ty : fnri_ok nri -> 1 <= ty <= 23 ->
   forall fs cs, fua_rel (Z.lor 28 nri) ty false fs cs -> forall buf,
   depack (mkH264Pkt avc buf) (map own_bytes fs)
   = Ok (mkH264Pkt avc [], packaging avc [] (Z.lor nri ty :: buf ++ concat cs)).
@@ -149,7 +151,7 @@ Proof.
     rewrite IH. cbn [concat]. rewrite app_nil_l, app_assoc. reflexivity.
 Qed.
 
-Theorem depack_fua avc nri ty fs cs : nri = 0 \/ nri = 32 \/ nri = 64 \/ nri = 96 -> 1 <= ty <= 23 ->
+Theorem depack_fua avc nri ty fs cs : fnri_ok nri -> 1 <= ty <= 23 ->
   fua_rel (Z.lor 28 nri) ty true fs cs -> forall stale,
   depack (mkH264Pkt avc stale) (map own_bytes fs)
   = Ok (mkH264Pkt avc [], packaging avc [] (Z.lor nri ty :: concat cs)).
@@ -194,7 +196,7 @@ Inductive item : Type :=
 Definition item_ok (it : item) : Prop :=
   match it with
   | INonFu p => match p with b0 :: _ => Z.land b0 31 <> 28 | [] => True end
-  | IFu fs => exists nri ty cs, (nri = 0 \/ nri = 32 \/ nri = 64 \/ nri = 96) /\ 1 <= ty <= 23 /\
+  | IFu fs => exists nri ty cs, fnri_ok nri /\ 1 <= ty <= 23 /\
                                 fua_rel (Z.lor 28 nri) ty true fs cs
   end.
 
